@@ -165,6 +165,7 @@ let parse_op (toks : string list) : op =
   | ["save"] -> OpSave None
   | ["savecap"; k] -> OpSave (Some (n k))
   | ["savepath"; "bad"] -> OpSavePath false
+  | ["savepath"; "dir"] -> OpSavePath false
   | ["savepath"; "full"] -> OpSavePath true
   | ["validate"] -> OpValidate
   | ["obshdr"] -> OpObsHdr
